@@ -1307,17 +1307,22 @@ def emit_negative(em, sh, rng, chunk):
         e = rng.choice(cands)
         A = e["type"]
         chunk.append("\t{ w := new(W[%s]); ps := &w.S; other := new(Other); wp, wn := unsafe.Pointer(w), unsafe.Sizeof(*w)" % T)
+        # another DEFINED type with the container's underlying type: a pointer to it converts to *S, and is no *S
+        under = sh.type[2] if sh.type[0] == "named" else sh.type
+        twin = ("named", "Twin%d" % sid, under)
+        chunk.append("\ttype Twin%d %s; tw := (*Twin%d)(ps)" % (sid, T, sid))
         chunk.append("\tmk := func() optics.Reflector[%s] { return optics.ForSpectrum1[%s, %s](%s) }" % (gosrc(A), T, gosrc(A), gostrlit(e["key"])))
         dyns = [("$S", "w.S", False), ("(ptr $S)", "&w.S", True), ("(ptr %s)" % sexpr(OTHER), "other", False), ("(ptr (ptr $S))", "&ps", False),
                 ("nil", "nil", False), ("int", "int(7)", False), ("(ptr int)", "new(int)", False),
                 # values whose reflect.Type also has an Elem() of the container type, without being a pointer to it
-                ("(slice $S)", "[]%s{w.S}" % T, False), ("(array 1 $S)", "[1]%s{w.S}" % T, False)]
+                ("(slice $S)", "[]%s{w.S}" % T, False), ("(array 1 $S)", "[1]%s{w.S}" % T, False),
+                ("(ptr %s)" % sexpr(twin), "tw", False)]
         for (dsx, dgo, ok) in dyns:
             for op in ("gett", "putt"):
                 req = "refl %d $S %s %s %s %s" % (sid, sh.sx(A), e["key"], dsx, op)
                 em.req(req, dict(kind="refl", sid=sid, dyn=dsx, op=op, ok=ok))
                 chunk.append("\treflDyn(%s, mk, %s, wp, wn, %s)" % (gostrlit(req), dgo, gostrlit(op)))
-        chunk.append("\t_ = ps; _ = other }")
+        chunk.append("\t_ = ps; _ = other; _ = tw }")
     emit_negative_names(add, sh, rng)
     if sh.twins:
         emit_negative_twins(add, sh, rng)
